@@ -391,7 +391,7 @@ class System(ListeningSystem):
                     retval += self.ack + '\n'
                     retval += f'5V {board["5V"]} 3V3 {board["3V3"]}\n'
                     retval += f'T0 {board["T0"]}\n\n'
-                elif int(board["Status"]) == 1:
+                elif int(board["Status"]) == 1 or int(board["Status"]) < 0:
                     retval += 'ERR DBE BOARD unreachable\n\n'
                 elif int(board["Status"]) > 1:
                     retval += self.ack + '\n'
@@ -410,7 +410,8 @@ class System(ListeningSystem):
 
         if selected_board is None:
             return self._error(params[0], 1007, params[2])
-        elif selected_board["Status"] == 1:
+        elif selected_board["Status"] == 1 or selected_board["Status"] < 0:
+            # Status -1: board not available
             return self._error(params[0], 1005, params[2])
         elif selected_board["Status"] == 0:
             retval = self.ack + '\n'
